@@ -3,6 +3,8 @@ import TabulaModel.Model.Export
 import TabulaModel.Model.ExportApi
 import TabulaModel.Model.ExportJson
 import TabulaModel.Model.Collection
+import TabulaModel.Model.ExportIO
+import TabulaModel.Model.ExportDecodeVdb
 /-
 Line-protocol handler for C14.  Wire format (one op per line, fields separated by one space):
 
@@ -50,6 +52,21 @@ Line-protocol handler for C14.  Wire format (one op per line, fields separated b
   c14.jsonread <hex>     -> "err" | dump of the value a standard JSON reader returns:
                             z | t | f | n<numbertext> | s<hex> | [v,v…] | {<keyhex>:v,…} (members in text order)
   c14.jsonlread <hex>    -> "err" | the dumps of the lines, ';'-joined ("none" for no line)
+  c14.decode g <hex>     -> "err" | c=<chunk>/…: the INVERSE READER (`decodeExportR`: standard parser of the configured
+                            format, then `decodeRecord` / `decodeRow`) applied to a text
+  c14.project g <0|1> c  -> `<normal flags>|c=<chunk>/…`: `projectChunk` (1 = JSON, section_path always) of every chunk,
+                            and one 0/1 per chunk for `chunkNormal`
+  c14.csvr r r=<rows>    -> hex of the csv.Writer output for delimiter RUNE r (any int; negative = invalid), "invalid" when
+                            encoding/csv rejects the delimiter and there is a record to write
+  c14.csvreadr r <hex>   -> "err" | rows dump: the RFC 4180 reader for the UTF-8 encoding of rune r
+  c14.batchint g size fail c -> like c14.batchrun with `size` any int (≤ 0: result sizeerr)
+  c14.tofile g <0|1> p=<name|-> c -> `<result>|<hex content | nofile>` of ExportToFile("out.dat") (0 = the file cannot be
+                            created; p = a file of that name exists before the call with content OLD); result = ok | createerr | experr
+  c14.tofiles g size n=<names> m=<names> p=<name|-> c -> `<result>|<namehex>:<hex>,…` (files sorted by name; "none"):
+                            ExportToFiles with fmt.Sprintf(pattern, k) = names[k]; m = names that cannot be created
+  c14.fmtname <int>      -> `<hex of ExportFormat(int).String()> <hex of .FileExtension()>`
+  c14.vdbdecode <P|C|W> <hex> -> "err" | records ';'-joined ("none"): the inverse reader of a Pinecone / Chroma / Weaviate text;
+                            record = [<classhex>|]<idhex>|<texthex>|<titlehex>|<pageStart>|<sectionhex>|<chunkIndex>|<tok>+<tok>… ("~")
   c14.coll f=<chain> <idhex> <i> c -> the accessors of the collection the chain returns (no search op in the chain):
                             count|first|last|GetByIndex(i)|GetByID(id)|sections|ps:pe|tokens|words|stats
                             chunk = <idhex>/<texthex> or nil; stats = 13 comma-separated numbers
@@ -101,7 +118,8 @@ def parseConfig (s : String) : Option Config :=
   | [fmt, im, fields, it, ie, fl, d, hd, pp, tcol, icol] => do
     let im ← parseBool im; let it ← parseBool it; let ie ← parseBool ie; let fl ← parseBool fl
     let hd ← parseBool hd; let pp ← parseBool pp
-    let d ← d.toNat?
+    let di ← d.toInt?
+    let d : Nat := if di < 0 then 0x110000 else di.toNat   -- a negative rune is as invalid as one above U+10FFFF
     let tcol ← unhexS tcol; let icol ← unhexS icol
     let fields ← if fields == "~" then some none
       else if fields == "=" then some (some [])
@@ -244,7 +262,7 @@ def specRows (cfg : Config) (cs : List Chunk) : List (List Str) :=
 /-- `ExportToString` of a batch, its text dropped (the op compares the control flow of the batch
 loop; the `Data` texts are compared by c14.tostring / c14.export on the first batch) -/
 def exportSucceeds (cfg : Config) (items : List Chunk) : Option Unit :=
-  (exportToString cfg items).map (fun _ => ())
+  (exportToStringR cfg items).map (fun _ => ())
 
 def dumpBatchResult : BatchResult → String
   | .ok => "ok"
@@ -308,6 +326,122 @@ def dumpWeaviate (os : List (WeaviateObject Str)) : String :=
 def dumpPrepared (rs : List EmbeddingRecord) : String :=
   dumpList (rs.map fun r => hexS r.id ++ "|" ++ hexS r.text ++ "|" ++ dumpMap r.metadata)
 
+/-! ### part 5: inverse reader, rune delimiters, every batch size, files -/
+
+def dumpChunkW (c : Chunk) : String :=
+  ".".intercalate [hexS c.id, hexS c.text, hexS c.md.documentTitle, hexS c.md.sectionTitle, dumpPath c.md.sectionPath,
+    hexS c.md.parentID, dumpPath c.md.childIDs, dumpPath c.md.elementTypes, toString c.md.headingLevel,
+    toString c.md.pageStart, toString c.md.pageEnd, toString c.md.chunkIndex, toString c.md.totalChunks,
+    toString c.md.level, toString c.md.charCount, toString c.md.wordCount, toString c.md.estimatedTokens,
+    b01 c.md.hasTable ++ b01 c.md.hasList ++ b01 c.md.hasImage]
+
+def dumpChunksW (cs : List Chunk) : String := "c=" ++ "/".intercalate (cs.map dumpChunkW)
+
+def parseRune (s : String) : Option Nat :=
+  s.toInt?.map (fun i => if i < 0 then 0x110000 else i.toNat)
+
+def parseNames (pfx : String) (s : String) : Option (List Str) :=
+  if !s.startsWith pfx then none else
+  let body := (s.drop pfx.length).toString
+  if body == "" then some [] else (body.splitOn ",").mapM unhexS
+
+def kOld : Str := [79, 76, 68]   -- "OLD"
+
+def parsePre (s : String) : Option FS :=
+  if s == "p=-" then some []
+  else if s.startsWith "p=" then (unhexS (s.drop 2).toString).map (fun n => [(n, kOld)])
+  else none
+
+def dumpFS (fs : FS) : String :=
+  if fs.isEmpty then "none" else
+  ",".intercalate ((sortStrings (fs.map (·.1))).filterMap fun n => (fsRead fs n).map fun d => hexS n ++ ":" ++ hexS d)
+
+def dumpBatchResultI : BatchResultI → String
+  | .ok => "ok"
+  | .sizeErr => "sizeerr"
+  | .callbackErr n => s!"cberr:{n}"
+  | .exportErr s => s!"experr:{s}"
+
+def dumpCalls (calls : List (Batch Chunk × Unit)) : String :=
+  if calls.isEmpty then "none" else
+    ",".intercalate (calls.map fun p => s!"{p.1.batchNumber}:{p.1.startIndex}:{p.1.endIndex}:{p.1.chunkCount}")
+
+def dumpView (v : VdbView) : String :=
+  "|".intercalate [hexS v.id, hexS v.text, hexS v.title, toString v.pageStart, hexS v.sectionTitle,
+    toString v.chunkIndex, dumpToks v.vector]
+
+def kOutDat : Str := [111, 117, 116, 46, 100, 97, 116]   -- "out.dat"
+
+def handle5 (op : String) (args : List String) : String :=
+  match op, args with
+  | "c14.decode", [g, h] =>
+    (match parseConfig g, unhexS h with
+     | some cfg, some text =>
+       (match decodeExportR cfg text with
+        | some cs => dumpChunksW cs
+        | none => "err")
+     | _, _ => "bad-op")
+  | "c14.project", [g, b, c] =>
+    (match parseConfig g, parseBool b, parseChunks c with
+     | some cfg, some b, some cs =>
+       String.join (cs.map fun c => b01 (chunkNormal c)) ++ "|" ++ dumpChunksW (cs.map (projectChunk b cfg))
+     | _, _, _ => "bad-op")
+  | "c14.csvr", [r, rows] =>
+    (match parseRune r, parseRows rows with
+     | some r, some rows =>
+       if rows.isEmpty then hexS []
+       else if Tabula.Csv.validDelimR r then hexS (Tabula.Csv.csvWriteR goExtra (Tabula.Csv.runeBytes r) rows)
+       else "invalid"
+     | _, _ => "bad-op")
+  | "c14.csvreadr", [r, h] =>
+    (match parseRune r, unhexS h with
+     | some r, some input =>
+       (match Tabula.Csv.csvReadR (Tabula.Csv.runeBytes r) input with
+        | some rows => dumpRows rows
+        | none => "err")
+     | _, _ => "bad-op")
+  | "c14.batchint", [g, size, fail, c] =>
+    (match parseConfig g, size.toInt?, fail.toInt?, parseChunks c with
+     | some cfg, some size, some fail, some cs =>
+       let r := batchExportRunInt size (exportSucceeds cfg) (fun b _ => decide ((b.batchNumber : Int) ≠ fail)) cs
+       dumpBatchResultI r.2 ++ "|" ++ dumpCalls r.1
+     | _, _, _, _ => "bad-op")
+  | "c14.tofile", [g, ok, pre, c] =>
+    (match parseConfig g, parseBool ok, parsePre pre, parseChunks c with
+     | some cfg, some ok, some fs, some cs =>
+       let r := collExportToFile (fun _ => ok) cs kOutDat cfg fs
+       (match r.2 with | .ok => "ok" | .createErr => "createerr" | .exportErr => "experr") ++ "|" ++
+         (match fsRead r.1 kOutDat with | some d => hexS d | none => "nofile")
+     | _, _, _, _ => "bad-op")
+  | "c14.fmtname", [i] =>
+    (match i.toInt? with
+     | some i => hexS (formatString (formatOfInt i)) ++ " " ++ hexS (fileExtension (formatOfInt i))
+     | none => "bad-op")
+  | "c14.vdbdecode", [w, h] =>
+    (match unhexS h with
+     | some text =>
+       if w == "W" then
+         (match decodeWeaviateText text with
+          | some rs => dumpList (rs.map fun r => hexS r.1 ++ "|" ++ dumpView r.2)
+          | none => "err")
+       else if w == "P" then
+         (match decodePineconeText text with
+          | some rs => dumpList (rs.map dumpView)
+          | none => "err")
+       else if w == "C" then
+         (match decodeChromaText text with
+          | some rs => dumpList (rs.map dumpView)
+          | none => "err")
+       else "bad-op"
+     | none => "bad-op")
+  | "c14.tofiles", [g, size, names, mask, pre, c] =>
+    (match parseConfig g, size.toInt?, parseNames "n=" names, parseNames "m=" mask, parsePre pre, parseChunks c with
+     | some cfg, some size, some names, some mask, some fs, some cs =>
+       let r := exportToFiles (fun n => !mask.contains n) (fun k => (names[k]?).getD []) cfg size cs fs
+       dumpBatchResultI r.2 ++ "|" ++ dumpFS r.1
+     | _, _, _, _, _, _ => "bad-op")
+  | _, _ => "bad-op"
+
 /-! ### part 4: collection accessors -/
 
 def dumpChunkRef : Option Chunk → String
@@ -331,7 +465,7 @@ def handle4 (op : String) (args : List String) : String :=
          toString (collPageRange r).1 ++ ":" ++ toString (collPageRange r).2,
          toString (collTotalTokens r 0), toString (collTotalWords r 0), dumpStats (collStatistics r)]
      | _, _, _, _ => "bad-op")
-  | _, _ => "bad-op"
+  | _, _ => handle5 op args
 
 /-! ### part 3: text level of the JSON formats -/
 
@@ -353,7 +487,7 @@ def handle3 (op : String) (args : List String) : String :=
   match op, args with
   | "c14.tostring", [g, c] =>
     (match parseConfig g, parseChunks c with
-     | some cfg, some cs => okHex (exportToString cfg cs)
+     | some cfg, some cs => okHex (exportToStringR cfg cs)
      | _, _ => "bad-op")
   | "c14.short", [n, c] =>
     (match parseChunks c with
@@ -438,7 +572,7 @@ def handle (op : String) (args : List String) : String :=
   | "c14.export", [g, c] =>
     (match parseConfig g, parseChunks c with
      | some cfg, some cs =>
-       (match exportCSV noMarshal cfg cs with
+       (match exportCSVR noMarshal cfg cs with
         | some t => "ok " ++ hexS t
         | none => "err")
      | _, _ => "bad-op")
